@@ -43,6 +43,7 @@ type Solver struct {
 	capture *strings.Builder // when set, commands of the current query are recorded
 	XDir    string           // directory for cross-check dumps ("" = off)
 	XEvery  int
+	xdumped int
 	xcount  int
 	xid     string
 	sinceReset int
@@ -378,6 +379,12 @@ func (s *Solver) Solve(conj []*Term, wantVars []*Term) (Verdict, Model) {
 		s.capture = nil
 		name := fmt.Sprintf("%s/q_%s_%06d_%s.smt2", s.XDir, s.xid, s.xcount, v)
 		os.WriteFile(name, []byte("(set-logic QF_BV)\n"+body), 0644)
+		// keep the sample spread over the whole run without filling the disk: after every 64 dumps
+		// of this worker the stride doubles
+		s.xdumped++
+		if s.xdumped%64 == 0 {
+			s.XEvery *= 2
+		}
 	}
 	s.capture = nil
 	var m Model
